@@ -124,6 +124,8 @@ def execute(case, which):
                     sim.set_bytes(s.offset, data)
             if cfg["family"] == "ET":
                 sim.set(47000, 3)
+        for lo_hi in spec.get("refuse_regs", ()):      # this inverter's firmware does not know these registers
+            (sim.modbus if isinstance(sim, siminv.Aa55Sim) else sim).refused.append(tuple(lo_hi))
         lr.log.clear()
         objs[name] = {"inv": inv, "sim": sim, "lr": lr, "results": [], "values": [], "req_marks": []}
     order = case["merge"] if which == "AB" else [which] * len(case["seq"][which])
@@ -419,6 +421,49 @@ def platform_pair_job(job):
     return acc
 
 
+def refusal_pair_job(job):
+    """Two objects of the same class; the firmware of A's inverter refuses (ILLEGAL DATA ADDRESS) some setting registers that
+    B's inverter knows.  What A learns about its inverter must not change what B transmits or returns."""
+    part, parts = job
+    acc = Acc()
+    i = 0
+    for va, vb in (("DT", "DT"), ("DT", "DT-single"), ("DT-single", "DT"), ("ET-v2", "ET-v2"), ("ET-v2", "ET-745"), ("ET-v1", "ET-v2"), ("ES-v2", "ES-v2")):
+        harness.import_goodwe(fresh=True)
+        inv, _ = siminv.build_direct(dict(VARIANTS[va]), default=0)
+        run_sync(inv.read_device_info())
+        sets_a = [x for x in inv.settings() if x.offset > 30000]
+        inv_b, _ = siminv.build_direct(dict(VARIANTS[vb]), default=0)
+        run_sync(inv_b.read_device_info())
+        ids_b = {x.id_ for x in inv_b.settings()}
+        common = [x for x in sets_a if x.id_ in ids_b]
+        for start in range(0, 6):
+            chosen = common[start::6][:6]
+            if not chosen:
+                continue
+            for style in (0, 1, 2):
+                i += 1
+                if i % parts != part:
+                    continue
+                refuse = [[x.offset, x.offset + max(1, (x.size_ + 1) // 2) - 1] for x in chosen]
+                sa = [["read_setting", x.id_] for x in chosen] + ([["settings_data"]] if style == 2 else [])
+                sb = [["read_setting", x.id_] for x in chosen] + [["runtime"]]
+                if style == 0:
+                    merge = ["A"] * len(sa) + ["B"] * len(sb)
+                elif style == 1:
+                    merge = [m for pair in zip(["A"] * len(sa), ["B"] * len(sa)) for m in pair] + ["B"]
+                else:
+                    merge = ["B", "A", "A", "B"] + ["A"] * len(sa) + ["B"] * len(sb)
+                case = {"objects": {"A": {"variant": va, "salt": i % 97, "groups": ["off", "off", "window", "off"], "refuse_regs": refuse},
+                                    "B": {"variant": vb, "salt": (i * 3) % 89 + 1, "groups": ["window", "window", "off", "peak"]}},
+                        "seq": {"A": sa, "B": sb}, "merge": merge}
+                acc.nontrivial("refusal-pair", va, vb, start, style)
+                _apply(acc, case)
+                if len(acc.samples) < 1:
+                    acc.sample(case)
+    harness.import_goodwe(fresh=True)
+    return acc
+
+
 def hyp_job(job):
     seed, n = job
     from hypothesis import strategies as st
@@ -463,6 +508,7 @@ def hyp_job(job):
 def run(ctx):
     ctx.shard(grid_job, [(p, 16, ctx.quick) for p in range(16)], "all ordered variant pairs x group-1 contents x 5 sequence styles, alternating merges (3 fresh library imports per case)")
     ctx.shard(platform_pair_job, [(p, 16) for p in range(16)], "cross-platform pairs (x1 / x10 eco encodings): all group-1 content combinations, reader vs emulated-mode writer")
+    ctx.shard(refusal_pair_job, [(p, 16) for p in range(16)], "same-class pairs where only A's inverter refuses some setting registers (reads of the same ids on both)")
     ctx.shard(e2e_job, [(p, 16) for p in range(16)], "end-to-end: both objects driven by concurrent tasks on one virtual loop (overlapping requests, per-peer latency)")
     n = ctx.pick(160, 8000)
     ctx.shard(hyp_job, [(ctx.seed * 1000 + i, n // 16) for i in range(16)], "hypothesis sequences and merges")
